@@ -115,3 +115,39 @@ Fixpoint items_of (off : N) (rs : list wrec) : list (N * prec) :=
 (* "no complete CRC-valid record image starts anywhere in t": the F10 hypothesis on a torn tail *)
 Definition no_valid_window (crc : bytes -> N) (t : bytes) : Prop :=
   forall (i : nat) cand rest, splitN (rd32 (skipn i t)) (skipn i t) = Some (cand, rest) -> validate crc cand = false.
+
+(* ---- vocabulary of the crash theorems ---- *)
+
+(* an operation the callers can issue: 20-byte addresses, uint64 timestamps *)
+Definition op_ok (o : op) : Prop :=
+  match o with
+  | OChunk a _ ts => lenN a = 20 /\ ts < 18446744073709551616
+  | OCommit ts root => lenN root = 20 /\ ts < 18446744073709551616
+  end.
+
+(* the roots of the root records of a list of records *)
+Definition roots_of (rs : list wrec) : list bytes :=
+  concat (map (fun r => match r with WRoot _ a => [a] | WChunk _ _ => [] end) rs).
+
+(* the range table recovery must show for the records rs (before any flatten) *)
+Definition spec_table (rs : list wrec) : ranges := {| novel := spec_ranges 0 rs []; cached := [] |}.
+
+(* ---- the journal index stream the writer produces ---- *)
+
+(* the lookups of an index stream, in order *)
+Definition ilookups (l : list irec) : list (bytes * N * N) :=
+  concat (map (fun r => match r with ILookup a o n => [(a, o, n)] | IMeta _ _ _ => [] end) l).
+
+(* the lookups the chunk records of a journal are entitled to: (address prefix, payload offset, payload length) *)
+Fixpoint rlookups (off : N) (rs : list wrec) : list (bytes * N * N) :=
+  match rs with
+  | [] => []
+  | WChunk a p :: rs' => (addr16 a, off + chunk_payload_off, lenN p) :: rlookups (off + chunk_rec_len (lenN p)) rs'
+  | WRoot _ _ :: rs' => rlookups (off + root_rec_len) rs'
+  end.
+
+(* every meta record of the stream: its end is the offset of a root record holding the meta's root, and the
+   lookups written before the meta are exactly those of the chunk records below that offset *)
+Definition metas_ok (idx : list irec) (recs : list wrec) : Prop :=
+  forall pre st e r post, idx = pre ++ IMeta st e r :: post ->
+    exists before ts after, recs = before ++ WRoot ts r :: after /\ e = total_len before /\ ilookups pre = rlookups 0 before.
